@@ -695,7 +695,7 @@ class BaseNodeVisitor(ast.NodeVisitor):
                         decision="this_line",
                     )
                 return
-            prev_line = lines[lineno - 2].strip()
+            prev_line = lines[lineno - 2].strip() if lineno >= 2 else ""
             if (
                 prev_line == ignore_comment
                 or error_code is not None
